@@ -57,6 +57,8 @@ pub enum CommentKind {
     Trailing,
     /// `/* text */` at a whitespace position
     Block,
+    /// `/*text*/` (nothing between the markers and the text: `/** doc **/`, `/***/`, `/**/`)
+    BlockTight,
 }
 
 #[derive(Clone, Debug, PartialEq)]
@@ -104,6 +106,7 @@ impl LayoutSpec {
                     "Line" => CommentKind::Line,
                     "Trailing" => CommentKind::Trailing,
                     "Block" => CommentKind::Block,
+                    "BlockTight" => CommentKind::BlockTight,
                     _ => return None,
                 },
                 text: c.get("text")?.as_str()?.to_string(),
@@ -392,6 +395,12 @@ pub fn apply_layout(marked_rules: &[String], spec: &LayoutSpec) -> String {
                 if !block_slots.is_empty() {
                     let p = block_slots[c.slot % block_slots.len()];
                     ins.push((p, format!("/* {} */ ", c.text)));
+                }
+            }
+            CommentKind::BlockTight => {
+                if !block_slots.is_empty() {
+                    let p = block_slots[c.slot % block_slots.len()];
+                    ins.push((p, format!("/*{}*/ ", c.text)));
                 }
             }
         }
